@@ -322,6 +322,7 @@ func (k *Kernel) pick(cur *Task, site int) *Task {
 // parked; it does not wait.
 func (k *Kernel) handoff(from *Task) {
 	atomic.AddInt64(&k.progress, 1)
+	atomic.AddInt64(&core.Progress, 1)
 	next := k.pick(nil, 0)
 	if next == nil {
 		// nobody runnable: finished, or deadlocked on parked tasks
@@ -363,6 +364,7 @@ func (k *Kernel) Yield(site int) {
 	}
 	k.Steps++
 	atomic.AddInt64(&k.progress, 1)
+	atomic.AddInt64(&core.Progress, 1)
 	cur.Steps++
 	if site != SpinSite {
 		cur.OpSteps++
